@@ -11,7 +11,8 @@ V: each execution's history (invocation / response order, request frames encoded
    is checked by TLC (ConcurrencyTrace) for linearizability against the tag model: some placement of atomic (member)
    effects between invocation and response must explain every reply and the final memory; each session must get
    exactly its own replies; no deadlock, no exception.
-F: the same scenarios also run on free-running threads (no scheduler, no instrumented locks, interpreter switch interval
+F: the same scenarios also run on free-running threads (every other repetition on a simulator that is not set up yet: the first
+   requests of the sessions race through logix.setup) (no scheduler, no instrumented locks, interpreter switch interval
    1 us), hundreds of repetitions; the recorded invocation / response histories are judged by the same acceptor.
 """
 import json
@@ -29,12 +30,14 @@ def exec_schedule(job):
     import cpppo
     from cpppo.server.enip import parser, logix
     from .. import sim, sched
-    sc, schedule = job
+    sc, schedule = job[:2]
+    cold = len(job) > 2 and job[2]     # a freshly started simulator: the first request sets the objects and tags up
     cfg = sc["cfg"]
-    dev = sim.Device(cfg)
+    dev = sim.Device(cfg, defer=cold)
     dev.set_mem(sc["mem0"])
+    kw = {"tags": dev.tags} if cold else {}
     for i, att in enumerate(dev.attrs):
-        a = dev.attr_of(i)
+        a = dev.attr_of(i) if not cold else att
         if not a.scalar:
             a.default = sched.SyncList(a.default)
             a.default.name = "t%d" % (i + 1)
@@ -62,7 +65,7 @@ def exec_schedule(job):
                     with machine:
                         for _ in machine.run(source=source, data=data, path="request"):
                             pass
-                    ok = logix.process(("10.0.0.%d" % s, 5000 + s), data=data)
+                    ok = logix.process(("10.0.0.%d" % s, 5000 + s), data=data, **kw)
                     rpy = bytes(parser.enip_encode(data.response.enip)) if ok else b""
                     want_ctx = bytes(bytearray(q["fb"][12:20]))
                     if rpy and rpy[12:20] != want_ctx:
@@ -81,7 +84,7 @@ def exec_schedule(job):
         errors.append(S.failed or "did not finish")
     final = dev.get_mem()
     return {"cfg": cfg, "mem0": sc["mem0"], "ops": ops, "ev": evs, "final": final, "errors": errors, "schedule": schedule,
-            "which": sc["which"], "points": len(S.trace), "trace": ["%d:%s" % x for x in S.trace][:200]}
+            "which": sc["which"], "points": len(S.trace), "trace": ["%d:%s" % x for x in S.trace][:200], "cold": bool(cold)}
 
 
 def exec_free(job):
@@ -89,24 +92,31 @@ def exec_free(job):
     anywhere (switch interval 1 us); invocation / response order as appended to one list (an append is atomic)"""
     import sys
     import threading
+    import time
     import cpppo
     from cpppo.server.enip import parser, logix
     from .. import sim
     sc, rep = job
     cfg = sc["cfg"]
-    dev = sim.Device(cfg)
+    cold = rep % 2 == 1               # a freshly started simulator: the sessions' first requests race through logix.setup
+    dev = sim.Device(cfg, defer=cold)
     dev.set_mem(sc["mem0"])
+    kw = {"tags": dev.tags} if cold else {}
     ops, evs, ids, errors = [], [], {}, []
     for s, lst in enumerate(sc["ops"], start=1):
         for i, q in enumerate(lst):
             ops.append({"s": s, "r": q["r"], "rpy": []})
             ids[(s, i)] = len(ops)
     go = threading.Event()
+    jr = random.Random(rep)
+    jitter = [jr.uniform(0.0, 0.004) for _ in range(4)]
 
     def body(s):
         def run():
             machine = parser.enip_machine(context="enip")
             go.wait()
+            if cold and s > 1:         # arrive while the first session's request is still setting the simulator up
+                time.sleep(jitter[s % len(jitter)])
             for i, q in enumerate(sc["ops"][s - 1]):
                 oid = ids[(s, i)]
                 evs.append({"e": "inv", "id": oid})
@@ -116,7 +126,7 @@ def exec_free(job):
                     with machine:
                         for _ in machine.run(source=source, data=data, path="request"):
                             pass
-                    ok = logix.process(("10.0.0.%d" % s, 5000 + s), data=data)
+                    ok = logix.process(("10.0.0.%d" % s, 5000 + s), data=data, **kw)
                     rpy = bytes(parser.enip_encode(data.response.enip)) if ok else b""
                     if rpy and rpy[12:20] != bytes(bytearray(q["fb"][12:20])):
                         errors.append("session %d got a reply with another context" % s)
@@ -168,7 +178,7 @@ def main(ctx):
     wd = core.workdir()
     rng = random.Random(ctx.seed)
     ev.rule = ("cases: (scenario, schedule): 5 scenarios (2-3 sessions, reads / all-equal writes / private-range writes / bundles) "
-               "x schedules `f runs a points, g runs b points, then the rest' for a in 0..60, b in {1,2,3,4,6,9,14,to-completion}, "
+               "x schedules `f runs a points, g runs b points, then the rest' for a in 0..80, b in {1..16,to-completion}, "
                "all ordered pairs of sessions.  Non-trivial: the schedule switches threads while a request is in progress "
                "(a within the number of scheduling points of f's requests).")
     ev.assumptions = ["free-running part: sampling (the interpreter's switch interval is set to 1 us); histories judged by the same linearizability acceptor",
@@ -192,15 +202,19 @@ def main(ctx):
             return
         scheds = ss[0]["s"]
         if ctx.quick:
-            scheds = [x for x in scheds if x[3] in (3, 9, 99) or x[1] % 3 == 0]
+            scheds = [x for x in scheds if x[3] in (11, 99) or (x[1] + 2 * x[3]) % 4 == 0]
         for x in scheds:
             jobs.append((sc[0], x))
+        if w in ("private", "mixed"):        # cold start: the other session arrives while the first one is inside logix.setup
+            for x in ss[0]["s"]:
+                if x[1] <= 12 and x[3] in (3, 4, 5, 6, 99):
+                    jobs.append((sc[0], x, True))
     lines = core.pmap(exec_schedule, jobs, chunksize=8)
     maxpts = {}
     for ln in lines:
         maxpts[ln["which"]] = max(maxpts.get(ln["which"], 0), ln["points"])
     for ln in lines:
-        ev.case(key=(ln["which"], tuple(ln["schedule"])), nontrivial=0 < ln["schedule"][1] < ln["points"])
+        ev.case(key=(ln["which"], tuple(ln["schedule"]), ln.get("cold", False)), nontrivial=0 < ln["schedule"][1] < ln["points"])
         if ln["errors"]:
             ctx.violation("concurrency_error", {"which": ln["which"], "schedule": ln["schedule"], "errors": ln["errors"], "trace": ln["trace"]},
                           what="scenario %s schedule %s: %s" % (ln["which"], ln["schedule"], "; ".join(ln["errors"])[:300]))
@@ -215,8 +229,8 @@ def main(ctx):
                           ln["which"], ln["schedule"], json.dumps([o["rpy"] for o in ln["ops"]])[:300], json.dumps(ln["final"])[:200]))
     # free-running threads: the same scenarios without any instrumentation, many repetitions
     scen = {}
-    for sc, x in jobs:
-        scen[sc["which"]] = sc
+    for job in jobs:
+        scen[job[0]["which"]] = job[0]
     fjobs = [(scen[w], k) for w in sorted(scen) for k in range(120 if ctx.quick else 3000)]
     flines = core.pmap(exec_free, fjobs, chunksize=10)
     for ln in flines:
